@@ -8,6 +8,7 @@ import (
 	"net"
 	"net/http"
 	"net/http/httptest"
+	"strings"
 	"sync"
 	"time"
 
@@ -323,6 +324,69 @@ func (h *httpCountHandler) Echo(ctx context.Context, token int) (int, error) {
 }
 func (h *httpCountHandler) Note(token int) { h.count(token) }
 
+// the connection loop of a client ends for good without the closer being called — a no-reconnect client loses its
+// connection, or the context given to the constructor is cancelled: the call in flight is failed, and calls issued
+// afterwards fail promptly; none may wait for the closer to be called (C03)
+func scenLoopEnds(kind faultKind, viaCtx bool) *connRun {
+	ctx, cancel := context.WithCancel(context.Background())
+	defer cancel()
+	e := newConnEnv(connOpts{noReconnect: !viaCtx, clientCtx: ctx})
+	params := map[string]interface{}{"fault": kind.String(), "via_ctx": viaCtx, "heals": false}
+	w := e.call("echo", context.Background())
+	e.waitEv(2*time.Second, func(ev tev) bool { return ev.Point == "call.return" && fmt.Sprint(ev.Args[0]) == fmt.Sprint(w) })
+	e.hold(2)
+	a := e.call("echo", context.Background())
+	e.waitEv(2*time.Second, evIs("h.start", a))
+	// more calls are handed to the connection loop while it is held with a request in its hands: when the loop ends
+	// each of them must be released as well
+	var queued []int
+	var g *gate
+	if !viaCtx && kind == faultRST {
+		g = e.tr.gate("loop.register", func(conn string, args []interface{}) bool { return strings.HasPrefix(conn, "ws-client") })
+		queued = append(queued, e.call("echo", context.Background()))
+		g.wait(2 * time.Second)
+		for i := 0; i < 24; i++ {
+			queued = append(queued, e.call("echo", context.Background()))
+		}
+		time.Sleep(10 * time.Millisecond)
+	}
+	if viaCtx {
+		cancel()
+	} else {
+		e.proxy.current().kill(kind)
+	}
+	if g != nil {
+		time.Sleep(10 * time.Millisecond)
+		g.release()
+	}
+	returned := func(t int) func(tev) bool {
+		return func(ev tev) bool { return ev.Point == "call.return" && fmt.Sprint(ev.Args[0]) == fmt.Sprint(t) }
+	}
+	late := ""
+	if !e.waitEv(2*time.Second, returned(a)) {
+		late = fmt.Sprintf("call %d was in flight when the connection loop ended and had not returned 2s later", a)
+	}
+	e.waitEv(2*time.Second, evIs("loop.exit", nil))
+	for _, t := range queued {
+		if !e.waitEv(2*time.Second, returned(t)) && late == "" {
+			late = fmt.Sprintf("call %d had been handed to the connection loop before it ended and had not returned 2s later", t)
+		}
+	}
+	time.Sleep(5 * time.Millisecond)
+	b := e.call("echo", context.Background())
+	c := e.call("retry", context.Background())
+	for _, t := range []int{b, c} {
+		if !e.waitEv(2*time.Second, returned(t)) && late == "" {
+			late = fmt.Sprintf("call %d, issued after the connection loop had ended, had not returned 2s later (the closer has not been called)", t)
+		}
+	}
+	r := e.finish("loopends", params)
+	if r.Oracle == "" {
+		r.Oracle = late
+	}
+	return r
+}
+
 // outage (C05): the link drops, the server is unreachable for k redials, then comes back; one retry-tagged and one
 // untagged call are in flight at the fault, one of each is issued during the outage; optionally a second fault right
 // after the reconnect. With noReconnect the client must never dial again.
@@ -484,6 +548,10 @@ func connFamily(seed uint64, tier string, args []string) {
 				}
 			}
 		}
+		for _, k := range []faultKind{faultFIN, faultRST} {
+			emit(scenLoopEnds(k, false))
+		}
+		emit(scenLoopEnds(faultFIN, true))
 		for _, k := range []faultKind{faultFIN, faultRST} {
 			emit(scenFault(k, "idle", "echo", "echo", false, true))
 		}
